@@ -308,6 +308,9 @@ func lexAtoms() []lexTree {
 		class("ab", []rng{{'a', 'b'}}, false),
 		class("a-c", []rng{{'a', 'c'}}, false),
 		class("b-cx", []rng{{'b', 'c'}, {'x', 'x'}}, false),
+		// items nested in, overlapping and repeating one another
+		class("a-cb", []rng{{'a', 'c'}}, false),
+		class("b-xa-cc", []rng{{'a', 'x'}}, false),
 		class("a", []rng{{'a', 'a'}}, true),
 		class("\\u0000-b", []rng{{0, 'b'}}, false),
 		class("c-\\U0010FFFF", []rng{{'c', 0x10FFFF}}, false),
@@ -514,10 +517,12 @@ func lexSpecText(rules []ruleSpec) string {
 func TestLexerDFA(t *testing.T) {
 	rep := newReport("dfa-vs-rules")
 	trees := lexTrees(3)
-	var usable []lexTree
+	var usable, nullable []lexTree
 	for _, tr := range trees {
 		if !tr.r.nullable() && tr.r.kind != reNone {
 			usable = append(usable, tr)
+		} else if tr.r.nullable() && tr.size <= 2 {
+			nullable = append(nullable, tr)
 		}
 	}
 	n := 2500
@@ -531,7 +536,13 @@ func TestLexerDFA(t *testing.T) {
 	for _, tr := range usable {
 		jobs = append(jobs, job{[]ruleSpec{{tr, 2}}})
 	}
-	for len(jobs) < n+len(usable) {
+	// a rule or a discarding fragment that also matches the empty string (the start state is
+	// then accepting), next to an ordinary rule
+	for i, nt := range nullable {
+		other := usable[(i*37)%len(usable)]
+		jobs = append(jobs, job{[]ruleSpec{{other, 2}, {nt, -1}}}, job{[]ruleSpec{{nt, 2}, {other, 3}}})
+	}
+	for len(jobs) < n+len(usable)+2*len(nullable) {
 		k := 2 + rnd.Intn(2)
 		var rs []ruleSpec
 		tok := 0
@@ -570,7 +581,7 @@ func TestLexerDFA(t *testing.T) {
 			rep.sample(name)
 		}
 	})
-	rep.done(t, false, fmt.Sprintf("%d expression shapes of size <=3 over 12 atoms (literals, classes incl. negation and code-space ends, '.'); every single rule plus %d seeded random sets of 2-3 rules; per set ALL strings are covered by product exploration (<=4000 product states)", len(usable), n))
+	rep.done(t, false, fmt.Sprintf("%d expression shapes of size <=3 over 14 atoms (literals, classes incl. negation, nested and overlapping items, code-space ends, '.'); every single rule, every rule that also matches the empty string beside another rule, plus %d seeded random sets of 2-3 rules; per set ALL strings are covered by product exploration (<=4000 product states)", len(usable), n))
 }
 
 // ---- non-greedy repetitions (C08) ----------------------------------------------------------------
